@@ -28,7 +28,11 @@ def main():
     props = "all"
     tier = "quick"
     demo = None
+    suite = True
     a = sys.argv[2:]
+    if "--no-suite" in a:
+        a.remove("--no-suite")
+        suite = False
     while a:
         if a[0] == "--props":
             props = a[1]
@@ -60,10 +64,11 @@ def main():
             rc, out = sh("cargo test --offline --test seeded_demo 2>&1 | tail -15", cwd=REPO)
             result["demo_with_patch"] = "pass" if "test result: ok" in out else "fail"
             sh("rm -f tests/seeded_demo.rs", cwd=REPO)
-        rc, out = sh("cargo test --offline 2>&1 | grep -E '^test result|error(\\[|:)' ", cwd=REPO)
-        passed = sum(int(l.split("ok. ")[1].split(" passed")[0]) for l in out.splitlines() if l.startswith("test result: ok"))
-        failed = [l for l in out.splitlines() if "FAILED" in l or l.startswith("error")]
-        result["suite"] = f"{passed} passed" + (f"; problems: {failed[:3]}" if failed else "")
+        if suite:
+            rc, out = sh("cargo test --offline 2>&1 | grep -E '^test result|error(\\[|:)' ", cwd=REPO)
+            passed = sum(int(l.split("ok. ")[1].split(" passed")[0]) for l in out.splitlines() if l.startswith("test result: ok"))
+            failed = [l for l in out.splitlines() if "FAILED" in l or l.startswith("error")]
+            result["suite"] = f"{passed} passed" + (f"; problems: {failed[:3]}" if failed else "")
         for p in plist:
             t0 = time.time()
             rc, out = sh(["./check", "run", p, "--tier", tier], cwd=ROOT)
